@@ -26,11 +26,14 @@ type Solver struct {
 	Unknown int
 	Time    time.Duration
 	timeout int // ms
+	fastMs  int
+	isZ3    bool
+	Fallbacks int
 	LastErr string
 }
 
 func NewSolver(bin string, timeoutMs int, args ...string) *Solver {
-	s := &Solver{bin: bin, args: args, timeout: timeoutMs}
+	s := &Solver{bin: bin, args: args, timeout: timeoutMs, fastMs: 150, isZ3: strings.Contains(bin, "z3")}
 	s.start()
 	return s
 }
@@ -51,9 +54,6 @@ func (s *Solver) start() {
 	s.emStack = nil
 	s.marks = nil
 	fmt.Fprintln(s.in, "(set-option :print-success false)")
-	if s.timeout > 0 && strings.Contains(s.bin, "z3") {
-		fmt.Fprintf(s.in, "(set-option :timeout %d)\n", s.timeout)
-	}
 }
 
 func (s *Solver) Restart() {
@@ -122,9 +122,24 @@ func (s *Solver) CheckWith(extra *Term) string {
 
 func (s *Solver) check() string {
 	t0 := time.Now()
-	fmt.Fprintln(s.in, "(check-sat)")
-	s.in.Flush()
-	line := s.readLine()
+	// first the incremental core with a short budget (fast on small queries), then the bit-blasting tactic
+	// (much faster on the wide-arithmetic obligations; probe: 1.7 s vs 46 s on a CalculateTTL obligation)
+	var line string
+	if s.isZ3 {
+		fmt.Fprintf(s.in, "(set-option :timeout %d)\n(check-sat)\n", s.fastMs)
+		s.in.Flush()
+		line = s.readLine()
+		if line != "sat" && line != "unsat" && !strings.HasPrefix(line, "(error") {
+			fmt.Fprintf(s.in, "(set-option :timeout %d)\n(check-sat-using (then simplify solve-eqs bit-blast sat))\n", s.timeout)
+			s.in.Flush()
+			line = s.readLine()
+			s.Fallbacks++
+		}
+	} else {
+		fmt.Fprintln(s.in, "(check-sat)")
+		s.in.Flush()
+		line = s.readLine()
+	}
 	s.Time += time.Since(t0)
 	s.Queries++
 	switch line {
@@ -136,7 +151,6 @@ func (s *Solver) check() string {
 		s.Unknown++
 		s.LastErr = line
 		if strings.HasPrefix(line, "(error") {
-			// drain nothing further; report as inconclusive
 			return "error:" + line
 		}
 		if line != "unknown" && line != "timeout" {
